@@ -244,6 +244,9 @@ func lmtpRun(rng *rand.Rand, lc lmtpCase, emit func(*Sx)) {
 	raws = append(raws, Raw{Kind: RawEOF})
 	cfg.Timeouts = nextTimeouts()
 	sx := RunConv(ConvCase{Cfg: cfg, Script: b.script, Phases: [][]Raw{raws}})
+	if sx == nil {
+		return // the generator has given up (three conversations whose handler never finished)
+	}
 	// describes the shape of the conversation for the C13 oracle (see CheckLmtpConv.v)
 	nchunks := 0
 	if lc.bdat {
